@@ -579,6 +579,117 @@ Proof.
       * intros a Ha. eapply closed_anc; [exact R1|exact Ha|]. apply R2. apply HR. eapply rget_values. eassumption.
 Qed.
 
+(* ---------------------------------------------------------- transport faults *)
+
+Definition push_post (g : cgraph) (remote r' : repo) : Prop :=
+  Closed g (o_commits (r_objs r')) /\ RefsResolve r' /\
+  incl (o_commits (r_objs remote)) (o_commits (r_objs r')) /\
+  incl (o_tables (r_objs remote)) (o_tables (r_objs r')) /\
+  forall n c, rget (r_refs r') n = Some c ->
+              In c (o_commits (r_objs r')) /\ forall a, anc (to_graph g) a c -> In a (o_commits (r_objs r')).
+
+Lemma push_post_same g remote :
+  Closed g (o_commits (r_objs remote)) -> RefsResolve remote -> push_post g remote remote.
+Proof.
+  intros HC HR. unfold push_post. repeat split; auto using incl_refl.
+  - apply HR. eapply rget_values. eassumption.
+  - intros a Ha. eapply closed_anc; [exact HC|exact Ha|]. apply HR. eapply rget_values. eassumption.
+Qed.
+
+Lemma push_apply_ok g remote us o' :
+  RefsResolve remote ->
+  Closed g (o_commits o') -> incl (o_commits (r_objs remote)) (o_commits o') ->
+  incl (o_tables (r_objs remote)) (o_tables o') ->
+  push_post g remote (push_apply g remote us o').
+Proof.
+  intros HR C1 I1 I2. unfold push_apply, push_post. simpl.
+  set (ok := filter _ (sort_upds us)).
+  assert (RR : forall x, In x (ref_values (fst (fst (fold_left (server_apply (is_ancestor (to_graph g)) false false)
+                        ok (r_refs remote, [], O))))) -> In x (o_commits o')).
+  { intros x Hx. apply server_apply_values in Hx. simpl in Hx.
+    destruct Hx as [Hx|[u [Hu Hn]]]; [apply I1; apply HR; exact Hx|].
+    unfold ok in Hu. apply filter_In in Hu. destruct Hu as [_ Hu]. rewrite Hn in Hu. apply cmem_In. exact Hu. }
+  repeat split; auto.
+  - apply RR. eapply rget_values. eassumption.
+  - intros a Ha. eapply closed_anc; [exact C1|exact Ha|]. apply RR. eapply rget_values. eassumption.
+Qed.
+
+(** push under ANY transport fault: whatever response is lost, the remote stays Closed and every ref - updated
+    or not - points at a stored commit with all its ancestors *)
+Theorem push_f_closed g local remote items gforce p f :
+  Closed g (o_commits (r_objs remote)) -> RefsResolve remote ->
+  push_post g remote (snd (push_f g local remote items gforce p f)).
+Proof.
+  intros HC HR.
+  assert (N : push_post g remote (snd (push g local remote items gforce p))).
+  { pose proof (push_closed g local remote items gforce p HC HR) as H.
+    destruct (push g local remote items gforce p) as [out r']. exact H. }
+  unfold push_f. cbv zeta.
+  destruct (f_mode f =? 0); [exact N|].
+  destruct (f_phase f =? 1); [simpl; apply push_post_same; assumption|].
+  destruct (push_view g local remote items gforce p) as [[[us expected] packs]|]; [|exact N].
+  destruct (f_phase f =? 2).
+  - destruct expected; simpl; [apply push_apply_ok; auto using incl_refl|apply push_post_same; assumption].
+  - destruct expected as [|c expected]; [exact N|].
+    destruct (pack_of_commit (f_j f) packs 0) as [i|]; [|exact N].
+    destruct (receive_packs g (r_objs remote) (c :: expected) (firstn (S i) packs)) as [[[o' e'] n]|] eqn:ER;
+      [|simpl; apply push_post_same; assumption].
+    apply receive_packs_inv in ER; [|exact HC]. destruct ER as (R1 & R2 & R3 & _).
+    destruct e'; simpl.
+    + apply push_apply_ok; assumption.
+    + unfold push_post. simpl. repeat split; auto.
+      * intros x Hx. apply R2. apply HR. exact Hx.
+      * apply R2. apply HR. eapply rget_values. eassumption.
+      * intros a Ha. eapply closed_anc; [exact R1|exact Ha|]. apply R2. apply HR. eapply rget_values. eassumption.
+Qed.
+
+(** fetch under ANY transport fault: the local store stays Closed, nothing is lost, and every ref that was
+    created or moved points at a stored commit all of whose ancestors are stored.  In particular a session
+    that does not reach "done" writes no ref (mode 1), and a retried one (mode 2) is an ordinary fetch from
+    the partially filled store. *)
+Definition fetch_post (g : cgraph) (local l' : repo) : Prop :=
+  Closed g (o_commits (r_objs l')) /\
+  incl (o_commits (r_objs local)) (o_commits (r_objs l')) /\
+  incl (o_tables (r_objs local)) (o_tables (r_objs l')) /\
+  forall n c, rget (r_refs l') n = Some c -> rget (r_refs local) n <> Some c ->
+              In c (o_commits (r_objs l')) /\
+              forall a, anc (to_graph g) a c -> In a (o_commits (r_objs l')).
+
+Lemma fetch_post_fetch g local remote specs gforce depth k p tn :
+  Closed g (o_commits (r_objs local)) ->
+  fetch_post g local (snd (fetch g local remote specs gforce depth k p tn)).
+Proof.
+  intros HC. pose proof (fetch_closed g local remote specs gforce depth k p tn HC) as H.
+  destruct (fetch g local remote specs gforce depth k p tn) as [out l']. exact H.
+Qed.
+
+Lemma fetch_post_same g local : Closed g (o_commits (r_objs local)) -> fetch_post g local local.
+Proof. intros HC. unfold fetch_post. repeat split; auto using incl_refl; contradiction. Qed.
+
+Theorem fetch_f_closed g local remote specs gforce depth k p tn f :
+  Closed g (o_commits (r_objs local)) ->
+  fetch_post g local (snd (fetch_f g local remote specs gforce depth k p tn f)).
+Proof.
+  intros HC. pose proof (fetch_post_fetch g local remote specs gforce depth k p tn HC) as N.
+  unfold fetch_f. cbv zeta.
+  destruct (f_mode f =? 0); [exact N|].
+  destruct (f_phase f =? 1); [simpl; apply fetch_post_same; exact HC|].
+  destruct (session_view _ _ _ _ _ _ _ _) as [[[wants has_json] packs]|]; [|exact N].
+  match goal with |- context [match ?h with Some _ => _ | None => _ end] =>
+    destruct h as [received|] end; [|exact N].
+  destruct (receive_packs g (r_objs local) wants received) as [[[o' e'] n]|] eqn:ER;
+    [|simpl; apply fetch_post_same; exact HC].
+  destruct e' as [|x e']; [exact N|].
+  apply receive_packs_inv in ER; [|exact HC]. destruct ER as (R1 & R2 & R3 & _).
+  destruct (f_mode f =? 1); simpl.
+  - unfold fetch_post. simpl. repeat split; auto; contradiction.
+  - pose proof (fetch_post_fetch g (mk_repo o' (r_refs local)) remote specs gforce depth k p tn R1) as P.
+    unfold fetch_post in P. cbn [r_objs r_refs] in P. destruct P as (P1 & P2 & P3 & P4).
+    unfold fetch_post. split; [exact P1|].
+    split; [eapply incl_tran; [exact R2|exact P2]|].
+    split; [eapply incl_tran; [exact R3|exact P3]|]. exact P4.
+Qed.
+
 (* ------------------------------------------------------------ non-vacuity *)
 
 (** history 0 <- 1 <- 2, 1 <- 3 <- 4 (tables 1,2,3,4,5), local has 0,1 with refs, remote everything *)
